@@ -163,6 +163,10 @@ func (vc *VC) execCall(fr *frame, n *Node, x *ssa.Call) {
 	// no contract: effects by mod-set, unconstrained results
 	ms := vc.prog.ModSetOf(callee)
 	vc.havocMods(n, ms)
+	if vc.prog.isFunctional(callee) {
+		vc.bindResult(n, x, sig, vc.functionalCall(n, x, callee, args))
+		return
+	}
 	if callee.Blocks != nil && strings.HasPrefix(callee.Pkg.Pkg.Path(), modPath) {
 		vc.enc.notes[fmt.Sprintf("callee %s has no contract: result unconstrained, effects by mod-set", callee.String())] = true
 	}
@@ -259,7 +263,41 @@ func (vc *VC) callWithContract(fr *frame, n *Node, x *ssa.Call, callee *ssa.Func
 			ms = newModSet()
 			vc.prog.computeModSet(callee, ms, map[*ssa.Function]bool{})
 		}
-		vc.havocMods(n, ms)
+		// memories the closure writes only through its own captured variables: with the bindings known, only those
+		// cells change
+		var capCells map[string][]int
+		if clo != nil && clo.fn == callee {
+			capCells = vc.prog.capOnlyOf(callee)
+		}
+		if len(capCells) > 0 && !ms.all {
+			ms2 := *ms
+			ms2.cells = map[string]types.Type{}
+			for k, v := range ms.cells {
+				if _, only := capCells[k]; !only {
+					ms2.cells[k] = v
+				}
+			}
+			vc.havocMods(n, &ms2)
+			for name, idxs := range capCells {
+				t, ok := ms.cells[name]
+				if !ok {
+					continue
+				}
+				vc.enc.registerMem(name, t)
+				cur := vc.memAtByName(n.st, name)
+				for _, i := range idxs {
+					if i >= len(clo.bindings) {
+						continue
+					}
+					nv := vc.decl(name+".cap", vc.enc.sortOf(t))
+					vc.assume(vc.enc.wellFormed(nv, t, n.st.wm))
+					cur = fmt.Sprintf("(store %s %s %s)", cur, clo.bindings[i].T, nv)
+				}
+				n.st.mem[name] = vc.def(name, vc.memSortByName(name, t), cur)
+			}
+		} else {
+			vc.havocMods(n, ms)
+		}
 	}
 	results := vc.freshResults(n, x.Name(), sig)
 	rn := vc.calleeResultNames(callee, results)
@@ -841,6 +879,9 @@ return func(name string) (Val, bool) {
 				}
 			}
 		}
+		if v, ok := vc.allocLocal(fr, n, n.blk, n.st, name); ok {
+			return v, true
+		}
 		// other named locals through debug references: the latest definition that dominates the call
 		if fr.dbg != nil {
 			var best *ssa.DebugRef
@@ -873,7 +914,16 @@ return func(name string) (Val, bool) {
 				}
 			}
 			if best != nil {
-				return n.env[best.X], true
+				v := n.env[best.X]
+				if best.IsAddr {
+					// a local kept in memory (its address is taken): the name denotes the current content of the cell
+					pt, ok := v.Typ.Underlying().(*types.Pointer)
+					if !ok {
+						return Val{}, false
+					}
+					return Val{T: vc.load(n.st, v.T, pt.Elem()), Typ: pt.Elem()}, true
+				}
+				return v, true
 			}
 		}
 		return Val{}, false
